@@ -19,9 +19,12 @@ PROPS = ['C01', 'C02', 'C03', 'C04', 'C05', 'C06', 'C07', 'C08', 'C09', 'C10', '
 LINE = re.compile(r'^  (\S+) \[([A-Z0-9-]+)/([a-z-]+)\] (.*?): ')
 
 
+BASELINE = None   # reports on the unpatched copy (subtracted: a finding of the pristine tree is not a detection)
+
+
 def run_seed(sid):
     d = os.path.join(HERE, 'seeded', sid)
-    patch = sid if sid.endswith('.diff') else os.path.join(d, 'patch.diff')
+    patch = None if sid == '<baseline>' else (sid if sid.endswith('.diff') else os.path.join(d, 'patch.diff'))
     tmp = tempfile.mkdtemp(prefix='lzlint-seed-')
     cache = tempfile.mkdtemp(prefix='lzlint-seedcache-')
     reports = []
@@ -32,10 +35,11 @@ def run_seed(sid):
                 shutil.copytree(s, os.path.join(tmp, name))
             elif os.path.exists(s):
                 shutil.copy2(s, os.path.join(tmp, name))
-        r = subprocess.run(['git', 'apply', '--include=src/*', patch], cwd=tmp,
-                           capture_output=True, text=True)
-        if r.returncode != 0:
-            return sid, None, 'patch does not apply: ' + r.stderr[-300:]
+        if patch is not None:
+            r = subprocess.run(['git', 'apply', '--include=src/*', patch], cwd=tmp,
+                               capture_output=True, text=True)
+            if r.returncode != 0:
+                return sid, None, 'patch does not apply: ' + r.stderr[-300:]
         env = dict(os.environ, VERIF_REPO=tmp, VERIF_CACHE=cache)
         for p in PROPS:
             r = subprocess.run([sys.executable, os.path.join(HERE, 'check'), p, '--no-evidence', '--tier', 'quick'],
@@ -60,7 +64,11 @@ def main():
     ids = sys.argv[1:] or sorted(os.listdir(os.path.join(HERE, 'seeded')))
     ids = [i for i in ids if i.endswith('.diff') or os.path.exists(os.path.join(HERE, 'seeded', i, 'patch.diff'))]
     with ThreadPoolExecutor(max_workers=6) as ex:
-        res = list(ex.map(run_seed, ids))
+        res = list(ex.map(run_seed, ['<baseline>'] + ids))
+    base = res[0][1] or []
+    if base:
+        print('note: %d report(s) on the unpatched tree are subtracted: %s' % (len(base), sorted({r['rule'] for r in base})))
+    res = [(sid, ([r for r in reports if r not in base] if reports is not None else None), err) for sid, reports, err in res[1:]]
     for sid, reports, err in res:
         if sid.endswith('.diff'):
             print('%s: %s' % (sid, err or ('MISSED' if not reports else '')))
